@@ -18,6 +18,7 @@ import (
 	"sort"
 	"strconv"
 	"strings"
+	"sync"
 	"sync/atomic"
 	"time"
 
@@ -54,14 +55,44 @@ func injectedNow() time.Time {
 	return baseTime.Add(time.Duration(atomic.LoadInt64(&clockSecs)) * time.Second)
 }
 
-// revokeFailLease makes Revoke fail (without reaching the server) while *fail is set.
-type revokeFailLease struct {
+// gateLease wraps the clientv3.Lease of a lease object: Revoke can be made to fail without reaching the
+// server (revokeFail), or to park once – before the request goes out (parkPre) or after etcd has applied it
+// but before the answer is handed to the caller (parkPost).
+type gateLease struct {
 	clientv3.Lease
-	fail *int32
+	c *cont
 }
 
-func (l *revokeFailLease) Revoke(ctx context.Context, id clientv3.LeaseID) (*clientv3.LeaseRevokeResponse, error) {
-	if atomic.LoadInt32(l.fail) != 0 {
+const (
+	parkNone = iota
+	parkPre
+	parkPost
+)
+
+func (l *gateLease) Revoke(ctx context.Context, id clientv3.LeaseID) (*clientv3.LeaseRevokeResponse, error) {
+	c := l.c
+	c.revMu.Lock()
+	mode := c.revPark
+	c.revPark = parkNone
+	parked, rel := c.revParked, c.revRelease
+	c.revMu.Unlock()
+	switch mode {
+	case parkPre:
+		close(parked)
+		if !<-rel {
+			return nil, errors.New("injected revoke failure")
+		}
+		// the caller's context (revokeLeaseTimeout = 1 s) may be over by now: the request itself is what is delayed
+		ctx2, cancel := context.WithTimeout(context.Background(), 10*time.Second)
+		defer cancel()
+		return l.Lease.Revoke(ctx2, id)
+	case parkPost:
+		resp, err := l.Lease.Revoke(ctx, id)
+		close(parked)
+		<-rel
+		return resp, err
+	}
+	if atomic.LoadInt32(&c.revokeFail) != 0 {
 		return nil, errors.New("injected revoke failure")
 	}
 	return l.Lease.Revoke(ctx, id)
@@ -78,6 +109,11 @@ type cont struct {
 	km          *encryptionkm.KeyManager
 	clock       int64
 	revokeFail  int32
+	revMu       sync.Mutex
+	revPark     int
+	revParked   chan struct{}
+	revRelease  chan bool
+	closing     chan struct{} // a Reset / ResetLeader parked inside lease.Close (closed when it has returned)
 	wrapped     clientv3.LeaseID // lease object already wrapped (identified by id; 0 = none yet)
 	wrappedSet  bool
 	pending     chan string // parked campaign
@@ -159,9 +195,18 @@ func (w *world) dropCont(c *cont) {
 		<-c.pending
 		c.pending = nil
 	}
+	w.endClosing(c, false)
 	w.stopWatch(c)
 	c.cancel()
 	c.client.Close()
+}
+
+func (w *world) endClosing(c *cont, through bool) {
+	if c.closing != nil {
+		c.revRelease <- through
+		<-c.closing
+		c.closing = nil
+	}
 }
 
 func (w *world) reset() {
@@ -622,7 +667,7 @@ func (w *world) startCampaign(c *cont, ttl int64, extra []cmpAtom) string {
 		w.noteLease(clientv3.LeaseID(v.ID))
 		// failure injection for the Revoke of this lease object
 		c.m.GetLeadership().VerifWrapLease(func(l clientv3.Lease) clientv3.Lease {
-			return &revokeFailLease{Lease: l, fail: &c.revokeFail}
+			return &gateLease{Lease: l, c: c}
 		})
 		return "parked"
 	case r := <-done:
@@ -817,7 +862,7 @@ func (w *world) exec(op string) string {
 		c := get(f[1])
 		ttl, ok := num(f[2])
 		extra, ok2 := parseCmps(f[3])
-		if c == nil || !ok || !ok2 || c.pending != nil {
+		if c == nil || !ok || !ok2 || c.pending != nil || c.closing != nil {
 			return bad
 		}
 		r := w.startCampaign(c, int64(ttl), extra)
@@ -829,7 +874,7 @@ func (w *world) exec(op string) string {
 		c := get(f[1])
 		ttl, ok := num(f[2])
 		extra, ok2 := parseCmps(f[3])
-		if c == nil || !ok || !ok2 || c.pending != nil {
+		if c == nil || !ok || !ok2 || c.pending != nil || c.closing != nil {
 			return bad
 		}
 		return w.startCampaign(c, int64(ttl), extra)
@@ -865,6 +910,62 @@ func (w *world) exec(op string) string {
 		}
 		w.withRevoke(c, rvOf(f[2]), func() { c.m.GetLeadership().Reset() })
 		return "ok"
+	case f[0] == "gresetl" && len(f) == 4:
+		c := get(f[1])
+		if c == nil || c.pending != nil || c.closing != nil || (f[2] != "pre" && f[2] != "post") ||
+			(f[3] != "reset" && f[3] != "leader") {
+			return bad
+		}
+		call := func() {
+			if f[3] == "leader" {
+				c.m.ResetLeader()
+			} else {
+				c.m.GetLeadership().Reset()
+			}
+		}
+		v := c.m.GetLeadership().VerifLease()
+		if !v.Has {
+			call() // no lease object: nothing to close
+			return "ok"
+		}
+		if v.ID == 0 {
+			// the lease object of a failed Grant never reached its transaction: it is not wrapped yet
+			c.m.GetLeadership().VerifWrapLease(func(l clientv3.Lease) clientv3.Lease {
+				if _, ok := l.(*gateLease); ok {
+					return l
+				}
+				return &gateLease{Lease: l, c: c}
+			})
+		}
+		c.revMu.Lock()
+		c.revPark = parkPost
+		if f[2] == "pre" {
+			c.revPark = parkPre
+		}
+		c.revParked = make(chan struct{})
+		c.revRelease = make(chan bool, 1)
+		parked := c.revParked
+		c.revMu.Unlock()
+		done := make(chan struct{})
+		go func() { call(); close(done) }()
+		select {
+		case <-parked:
+			c.closing = done
+			return "parked"
+		case <-done:
+			panic("gresetl: Reset returned without a Revoke request")
+		case <-time.After(20 * time.Second):
+			panic("gresetl: neither parked nor done")
+		}
+	case f[0] == "rfinish" && len(f) == 3:
+		c := get(f[1])
+		if c == nil || c.closing == nil {
+			return bad
+		}
+		w.endClosing(c, rvOf(f[2]))
+		return "ok"
+	case f[0] == "serverhb" && len(f) == 1:
+		return serverHeartbeatAfterResign()
 	case f[0] == "delkey" && len(f) == 4:
 		c := get(f[1])
 		if c == nil || c.pending != nil {
@@ -1007,6 +1108,7 @@ func (w *world) exec(op string) string {
 		}
 		// all volatile state is dropped; nothing is told to etcd
 		atomic.StoreInt32(&c.revokeFail, 1)
+		w.endClosing(c, false)
 		w.stopWatch(c)
 		c.cancel()
 		c.client.Close()
@@ -1062,6 +1164,7 @@ func main() {
 	n := flag.Int("n", 60, "number of generated sequences")
 	maxOps := flag.Int("len", 50, "max ops per sequence")
 	stream := flag.Uint64("stream", 0, "PRNG stream (even: faithful executions, odd: malformed)")
+	srvhb := flag.Bool("srv", false, "stream 0 starts with the server-level heartbeat-after-resign check")
 	real := flag.Bool("real", false, "stream 0 starts with a real-clock check of the lease timing assumption")
 	flag.Parse()
 
@@ -1087,6 +1190,10 @@ func main() {
 	}
 	r := rng.FromEnv(*stream)
 	st := newStats()
+	if *srvhb && *stream == 0 {
+		w.run(t, "reset faithful")
+		st.add("serverhb", w.run(t, "serverhb"))
+	}
 	if *real && *stream == 0 {
 		w.run(t, "reset faithful")
 		st.add("realexpiry 1", w.run(t, "realexpiry 1"))
